@@ -323,3 +323,11 @@ func (p *Pool) saveLog(o *Outcome, stderr, what string) {
 	}
 	os.WriteFile(name, []byte(stderr), 0o644)
 }
+
+// Deaths0 returns the stderr of the first death (or of the post-result death).
+func (o *Outcome) Deaths0() string {
+	if len(o.Deaths) > 0 {
+		return o.Deaths[0]
+	}
+	return o.PostDeath
+}
